@@ -320,6 +320,11 @@ def generate_and_run(rng, profile, max_client_ops=None):
                 settle()
         for _ in range(nops):
             op = gen_op(rng, sim, weights)
+            if op[0] == "add" and op[1] and rng.random() < 0.3 \
+                    and all(k >= 0 and kinds[k] != "nobackend" for k in op[1]):
+                if rng.random() < 0.4 and len(op[1]) >= 2:
+                    op[1][-1] = op[1][0]          # the same URI requested twice
+                op = op + ["uris"]
             if op[0] == "indexof" and rng.random() < 0.75:
                 ents = runner.core.tracklist.get_tl_tracks()
                 if ents:
